@@ -6,29 +6,29 @@ TRUST = ("Trusted base: rustc's type checking, trait resolution, MIR constructio
          "compiler's own analysis-phase MIR of /repo's working tree); documented semantics of std and the third-party "
          "crates named in DESIGN.md section 2; the specification tables under /verif/spec.")
 CLAIMED = {
- "C01": ("other", "Structural decision, exhaustive over all impl methods of the serde wrapper types: every nested carrier is re-wrapped with the right behaviour (type arguments of resolved callees), entry types bind the right behaviour, trait surfaces complete, Conjure spellings agree writer/reader, end-of-input validated, forwarders same-named. Induction over value depth follows; library round-trip laws are not decided.", "4/C01",
+ "C01": ("other", "Structural decision, exhaustive over all impl methods of the serde wrapper types: every nested carrier is re-wrapped with the right behaviour (type arguments of resolved callees), entry types bind the right behaviour, trait surfaces complete, Conjure spellings agree writer/reader, end-of-input validated, forwarders same-named. Induction over value depth follows; library round-trip laws are not decided. Also: is_human_readable answered alike by every serializer / deserializer wrapper (R1.9), thread-local state restored on every exit (R1.10), writer / reader spelling tables evaluated on probe values.", "4/C01",
          "MIR-driver rules: callee type-argument wrap discipline, trait-surface completeness, decision tables by control dependence, dominance"),
  "C05": ("other", "Structural decision: strict behaviour carried through every container path (51 carrier slots), server entry types bound to UnknownFieldsBehavior<client>, interception chain wired by callee type arguments, terminal deserialize_ignored_any always errors with the recorded key, clients never intercept.", "4/C05",
          "MIR-driver rules: wrap discipline by callee type arguments, chain following, dataflow + post-dominance at the terminal"),
- "C15": ("proof", "Proof by construction-site induction over the whole workspace: every Aggregate(SafeLong) in the compiler's MIR is a folded in-range constant, a widening of a <=32-bit integer, a copy/default, or control-dependent on Cmin <= v <= Cmax for the same never-reassigned v; representation private, no mutable access, no transmute; bounds fold to exactly +-(2^53-1) and the accepted interval is exact; all conversion routes use lossless conversions into the checked constructor. All obligations are re-derived from the current tree on every run.", "4/C15",
+ "C15": ("proof", "Proof by construction-site induction over the whole workspace: every Aggregate(SafeLong) in the compiler's MIR is a folded in-range constant, a widening of a <=32-bit integer, a copy/default, or control-dependent on Cmin <= v <= Cmax for the same never-reassigned v; representation private, no mutable access, no transmute; bounds fold to exactly +-(2^53-1) and the accepted interval is exact; all conversion routes use lossless conversions into the checked constructor. All obligations are re-derived from the current tree on every run. As built, every integer TryFrom is additionally evaluated on the boundary values of its source type (any width).", "4/C15",
          "MIR-driver rules: construction-site enumeration, guard dominance with interval extraction, constant folding, who-may-write"),
  "C20": ("other", "Determinism decided as absence of every way two runs could differ: no hash-order iteration and no process-varying input anywhere in the generator (who-may-call over all bodies, each with a positive control that must fire), every file-system write rooted through the call graph in generate_files' output directory, CLI fields wired to the Config setter of the same meaning, ordered containers for emitted order. Determinism of third-party formatters is trusted.", "4/C20",
          "MIR-driver rules: effect who-may-call with positive controls, interprocedural path-root dataflow, CLI-to-Config dataflow table"),
  "C13": ("other", "Sibling-table agreement over the 19 variants of the `any` carrier: serializer->variant, variant->re-serialize, visitor->variant, variant->replay, compound end(), each extracted from MIR and compared with one canonical table; trait-surface completeness (the i128/u128 class); coercion constants and per-type key parsing rows; Option handling. The inverse law for all values is not decided.", "4/C13",
          "MIR-driver rules: decision tables from discriminant switches and aggregates, trait-surface completeness, sibling agreement"),
- "C16": ("other", "Construction-site confinement with guard dominance for both types workspace-wide; recognisers shown equal to the specification's languages (token byte class from the compiler-evaluated table; rid regex literal language-equivalent to the specification regex by DFA product, group by group); validator acceptance shape; from_components dot pre-checks; routes and renderings. Regex-crate semantics trusted.", "4/C16",
+ "C16": ("other", "Construction-site confinement with guard dominance for both types workspace-wide; recognisers shown equal to the specification's languages (token byte class from the compiler-evaluated table; rid regex literal language-equivalent to the specification regex by DFA product, group by group); validator acceptance shape; from_components dot pre-checks; routes and renderings. Regex-crate semantics trusted. As built, every text route into a bearer token is evaluated on ~540 probe texts against the specification regex.", "4/C16",
          "MIR-driver rules: construction-site enumeration + guard dominance, evaluated static table, regex->DFA language equivalence"),
- "C17": ("other", "Status and wire tables of ErrorCode against the specification; safe/unsafe partition decided by control dependence on the membership test with maps identified by the field they are stored in; propagated errors pass a constant empty safe list; encode() wiring by dataflow; scalar stringification visitor set exact; generated ErrorType impls of the instance joined with the IR (both configs) and the standard types checked for consistency.", "4/C17",
+ "C17": ("other", "Status and wire tables of ErrorCode against the specification; safe/unsafe partition decided by control dependence on the membership test with maps identified by the field they are stored in; propagated errors pass a constant empty safe list; encode() wiring by dataflow; scalar stringification visitor set exact; generated ErrorType impls of the instance joined with the IR (both configs) and the standard types checked for consistency. As built, the partition is decided by interpreting the builder over 12 small models of (parameters, safe list) with std collections on an oracle-kept heap; the control-dependence form is the fallback.", "4/C17",
          "MIR-driver rules: decision tables from discriminant switches, control dependence, dataflow, trait-surface exactness, IR join"),
- "C06": ("other", "Must-pass-through on both request deserializers (encoding lookup, bounded read with Some(N), deserialize over that buffer, end-of-input validation, each by success-edge dominance and dataflow identity), limit typestate over read_body/async_read_body as a path property on the CFG (no path from a data-adding event to an Ok return avoids the success edge of the limit check on the same accumulator), exact len > limit rejection, stream errors consumed only through `?`, error class by type argument, optional/binary/lookup tables, blocking/async twin agreement, panic inventory.", "4/C06",
+ "C06": ("other", "Must-pass-through on both request deserializers (encoding lookup, bounded read with Some(N), deserialize over that buffer, end-of-input validation, each by success-edge dominance and dataflow identity), limit typestate over read_body/async_read_body as a path property on the CFG (no path from a data-adding event to an Ok return avoids the success edge of the limit check on the same accumulator), exact len > limit rejection, stream errors consumed only through `?`, error class by type argument, optional/binary/lookup tables, blocking/async twin agreement, panic inventory. As built, the request pipeline and both body readers are decided first as decision tables (the function's MIR interpreted per row over lookup x read x deserialize x end-of-input, and over 30 scripted streams x limits); the structural forms are the fallback.", "4/C06",
          "MIR-driver rules: dominance / must-pass-through, typestate as CFG path property, dataflow identity, twin agreement"),
- "C18": ("other", "Content-type gate dominance before the body is taken, value provenance (client_from_slice over read_body(.., None)), 204 table, blocking/async twin agreement, unlimited reassembly completeness and stream-error propagation, panic inventory; generated instance: all 112 client methods joined with the IR ask for and decode the class their return type prescribes and return the helper's result unchanged.", "4/C18",
+ "C18": ("other", "Content-type gate dominance before the body is taken, value provenance (client_from_slice over read_body(.., None)), 204 table, blocking/async twin agreement, unlimited reassembly completeness and stream-error propagation, panic inventory; generated instance: all 112 client methods joined with the IR ask for and decode the class their return type prescribes and return the helper's result unchanged. As built, each decoder is decided first as a decision table (status x Content-Type x stream x parse, value provenance read off the atoms' arguments, twins compared row by row) and the readers over scripted streams; the structural forms are the fallback.", "4/C18",
          "MIR-driver rules: gate dominance, dataflow provenance, table, twin agreement, IR-joined instance validation"),
- "C19": ("other", "Helpers attach param=<own log_as parameter> to decoder errors (followed into the map_err closure's captures) and return Ok untouched; error class by type argument over all decoders and auth parsing; cardinality conditions of only_item/optional_item; template provenance of the log-name slot in the endpoint macro; generated instance joined with the IR: 27 arguments x 4 handlers each report the IR argName and use the IR ids; handler invoked once after all extractions succeeded.", "4/C19",
+ "C19": ("other", "Helpers attach param=<own log_as parameter> to decoder errors (followed into the map_err closure's captures) and return Ok untouched; error class by type argument over all decoders and auth parsing; cardinality conditions of only_item/optional_item; template provenance of the log-name slot in the endpoint macro; generated instance joined with the IR: 27 arguments x 4 handlers each report the IR argName and use the IR ids; handler invoked once after all extractions succeeded. As built, every parameter decoder, the auth parsers and the cardinality helpers are also evaluated on concrete lists of texts / header texts.", "4/C19",
          "MIR-driver rules: closure-capture dataflow, error class by type argument, control dependence, quote!-template provenance, IR-joined instance validation"),
  "C09": ("other", "Sink typing over every safe-to-log channel (31 sinks in conjure_http, incl. function items used as values): causes must be string constants or data-free ADTs decided from the type definition (also foreign), type parameters/projections/value-bearing types are violations; with_safe_param table; generated handlers insert into SafeParams exactly the IR-safe arguments (independent fixpoint evaluation) with the decoded value and never the auth token; macro emits insertion only under arg.safe(); BearerToken Debug never reads the token.", "4/C09",
          "MIR-driver rules: sink typing by resolved callee type arguments (incl. FnDef constants), ADT data-freeness, dataflow, IR join, template conditions"),
- "C07": ("other", "Compiler-evaluated percent-encode sets shown to contain every byte that is structural or illegal for this repo's decoders (44 bytes with reasons; keys additionally '='), only the escaper writes value bytes (raw parameter positions computed from MIR and shown to receive compile-time constants at every generated call site), typestate (literal|path)* query* build over all 112 generated client methods, decoder pairing incl. split-before-decode order, panic inventory with the build() unwrap recorded as a known finding (TooLong).", "4/C07",
+ "C07": ("other", "Compiler-evaluated percent-encode sets shown to contain every byte that is structural or illegal for this repo's decoders (44 bytes with reasons; keys additionally '='), only the escaper writes value bytes (raw parameter positions computed from MIR and shown to receive compile-time constants at every generated call site), typestate (literal|path)* query* build over all 112 generated client methods, decoder pairing incl. split-before-decode order, panic inventory with the build() unwrap recorded as a known finding (TooLong). As built, the escaper is also evaluated on every ASCII character and structural mixes (output decodes to the value, contains no byte that must be encoded) and path_param on matched texts (one decoded text per segment).", "4/C07",
          "MIR-driver rules: evaluated constants, interprocedural who-writes dataflow, typestate on the CFG, panic inventory"),
  "C08": ("other", "Precedence of explicit / legacy / type-derived safety by dominance; decision tables of combine (16 rows), primitives and type constructors extracted from MIR by path-sensitive constant propagation over finite domains and compared with the meet lattice; named-type rules per definition kind; memo-cell discipline (no provisional constant in a recursive evaluator; stores only inside a repeat-until-stable loop); generated instance equals an independent greatest-fixpoint evaluation of the IR; generator emits `safe` exactly under the decision.", "4/C08",
          "MIR-driver rules: dominance, decision-table extraction (constant propagation over finite enum domains), memo-cell typestate, IR-joined instance validation"),
@@ -36,13 +36,13 @@ CLAIMED = {
          "MIR-driver rules: sibling impl-table agreement, decision tables by control dependence, constant identity"),
  "C14": ("other", "PARTIAL (transitivity over unbounded containers and ordered-float/educe semantics are not decided). Decided: no raw float comparison in DoubleOps/DoubleKey code or any generated comparison impl; canonical wrapper used consistently by eq/cmp/hash; containers touch elements only through DoubleOps, Vec length guards; Option eq/cmp decision tables extracted from MIR are reflexive, antisymmetric, consistent; educe templates route to DoubleOps under is_double/has_double; every generated type with double-bearing fields calls DoubleOps in all three impls.", "4/C14",
          "MIR-driver rules: forbidden-operation scan, sibling consistency, decision-table extraction, template checks, instance validation"),
- "C10": ("other", "PARTIAL (document equivalence for all payloads not decided). Decided on the generated instance in both configurations, joined with the IR: Unknown variants exist exactly when not exhaustive; classification tables (from_str, union classifier) map every IR name to its own variant with only the fall-through arm reaching Unknown / an error, inverse of as_str / serializer; name predicate byte class evaluated over all 256 bytes equals [A-Z0-9_], non-empty, guarding every Variant construction; union Unknown arm and both visit_map orders; trailing-member check; generator emits Unknown pieces only on the !exhaustive branch.", "4/C10",
+ "C10": ("other", "PARTIAL (document equivalence for all payloads not decided). Decided on the generated instance in both configurations, joined with the IR: Unknown variants exist exactly when not exhaustive; classification tables (from_str, union classifier) map every IR name to its own variant with only the fall-through arm reaching Unknown / an error, inverse of as_str / serializer; name predicate byte class evaluated over all 256 bytes equals [A-Z0-9_], non-empty, guarding every Variant construction; union Unknown arm and both visit_map orders; trailing-member check; generator emits Unknown pieces only on the !exhaustive branch. As built, name routes that are not in the non-empty-and-all(class) form are decided on ~400 probe names; thread-local state of the dynamic value restored on every exit.", "4/C10",
          "MIR-driver rules: ADT facts joined with IR, string-match decision tables, constant propagation over the byte domain, guard dominance, template conditions"),
  "C04": ("other", "PARTIAL (end-to-end value equality is not decided). Pairing tables decided on the generated instance joined with the IR: for every argument of all 112 client methods / 112 handlers the client encoder and the server decoder are the pair the IR class prescribes with equal keys / header names / path variables / cookie prefix / element types; response serializer and client decoder paired by return class; Accept and content-type string constants agree; 204 producers match the client's 204 shortcuts per impl; handler invoked once with extracted values in IR order and its result serialized.", "4/C04",
          "MIR-driver rules: IR-joined instance validation against a pairing table, constant identity, dataflow, dominance"),
  "C02": ("other", "PARTIAL (document acceptance rests on serde-derive / serde_json; malformed primitives inherited from C15/C16/C10/C01). Decided: generator type predicates as decision tables (constant propagation over 7 constructors x primitives) against the wire specification incl. sibling agreement; field-attribute decisions by template conditions; generated instance vs IR in both configurations: field names in order, emptiness guards iff omittable, missing_field exactly for required fields, field tables, enum value strings, alias transparency, union discriminator constant on both sides.", "4/C02",
          "MIR-driver rules: decision-table extraction, template conditions, IR-joined instance validation of derive expansions"),
- "C03": ("other", "PARTIAL: type-correctness of the emitted tree for all IR documents is not applicable to static analysis (only the repository's own instance is compiled). Decided: the identifier-escape table contains every reserved word the running compiler reports (editions 2015-2021, and 2024), `Self` escaped by the camel-case sibling; panic inventory of the generator against a reasoned list (new site / higher count reported), input-dependent size arithmetic checked; the analysis build type-checks both generated configurations of the instance.", "4/C03",
+ "C03": ("other", "PARTIAL: type-correctness of the emitted tree for all IR documents is not applicable to static analysis (only the repository's own instance is compiled). Decided: the identifier-escape table contains every reserved word the running compiler reports (editions 2015-2021, and 2024), `Self` escaped by the camel-case sibling; panic inventory of the generator against a reasoned list (new site / higher count reported), input-dependent size arithmetic checked; the analysis build type-checks both generated configurations of the instance. Also: the escape function evaluated on every reserved word; the log-safety iteration settles (R3.11).", "4/C03",
          "MIR-driver rules: constant-table superset of the compiler's reserved-word predicate, panic-site inventory, instance compilation"),
 }
 NA = {
